@@ -18,6 +18,7 @@ In child processes (C16) the log goes to the file named by $XSIM_CALLLOG.
 """
 import os
 import json
+import hashlib
 
 import numpy as np
 
@@ -46,36 +47,32 @@ def _plain(v):
     return v
 
 
-_STR_CODES = {}
-
-
-def code(v):
-    """injective numeric code of an argument value (ints, floats, short strs)"""
+def _norm(v):
     v = _plain(v)
     if isinstance(v, bool):
-        return 7.0 + int(v)
+        return ("b", v)
     if isinstance(v, (int, float)):
-        return float(v)
+        return ("n", float(v))  # 1 and 1.0 are the same argument value
     if isinstance(v, str):
-        # single letters only (|code| stays < 32, see scalar()); negative and
-        # off-grid so it can't collide with the ints / half-ints used
-        if len(v) != 1 or not ("a" <= v <= "z"):
-            raise TypeError("swept strings must be single lower-case letters")
-        return -float(ord(v) - 96) - 0.25
+        return ("s", v)
     raise TypeError("unsupported swept value %r" % (v,))
 
 
+def number(kwargs):
+    """A 48-bit integer that identifies the keyword arguments (names and values;
+    list-valued arguments such as coordinate constants are ignored): a keyed
+    hash, so that any result value identifies the one setting that produced it
+    for any number of arguments (collisions among the few hundred settings of a
+    run have probability ~ 1e-10), exactly representable as float64 and int64."""
+    items = tuple(sorted((k, _norm(v)) for k, v in kwargs.items()
+                         if not isinstance(v, (list, tuple, np.ndarray))))
+    h = hashlib.blake2b(repr(items).encode(), digest_size=6).digest()
+    return int.from_bytes(h, "big")
+
+
 def scalar(kwargs):
-    """injective in the named arguments as long as |code| < 32 and distinct
-    codes differ by >= 0.25 (ints 0..30, half-ints, single letters, bools):
-    term i is code * 1000^i * f(name) with 1 < f < 1.5, so all lower terms
-    together span < 0.1 * 1000^i; at most 5 arguments (float53 is exact
-    enough up to 1000^4 * 48 / 0.25)."""
-    tot = 0.0
-    names = [k for k in sorted(kwargs) if not isinstance(kwargs[k], (list, tuple, np.ndarray))]
-    for i, k in enumerate(names):
-        tot += code(kwargs[k]) * (1000.0 ** i) * (1 + (ord(k[0]) - 96) / 64.0)
-    return tot
+    """number/8: three binary places, exact in float64 together with +-1, +0.5, *2"""
+    return number(kwargs) / 8.0
 
 
 def value(kind, kwargs):
@@ -83,7 +80,7 @@ def value(kind, kwargs):
     if kind == "scalar":
         return s
     if kind == "int":
-        return int(round(s * 4))
+        return number(kwargs)
     if kind == "tuple2":
         return (s, -s - 1.0)
     if kind == "tuple3":
@@ -93,7 +90,7 @@ def value(kind, kwargs):
     if kind == "scalar+array":  # two outputs: scalar and 2x2 nested list
         return (s, [[s, s + 1.0], [s + 2.0, -s]])
     if kind == "bool":
-        return (int(round(s * 4)) % 3) == 0
+        return number(kwargs) % 3 == 0
     if kind == "str":
         return "r" + "|".join("{}={}".format(k, _plain(kwargs[k])) for k in sorted(kwargs))
     if kind == "dict":  # -> Dataset-like dict of scalars (var_names=None)
